@@ -505,3 +505,23 @@ def check_C08():
            "samples": (srep["samples"] or [])[:3] + (xrep["samples"] or [])[:3] or [{}], "counters": {"stress": srep["counters"], "explore": xrep["counters"]}}
     finish("C08", "model_checking", cov, viols, inconclusive=inconc or None,
            assumptions=["the Go race detector decides 'no data race' on the executions it sees", "gates add happens-before edges, so race detection runs ungated"])
+
+
+def check_C17():
+    vh = build_harness()
+    car = vlib.build_car()
+    model = run_tlc("MCExtractFS", "ExtractFS_guardTRUE.cfg", timeout=1800)
+    tlc_must_pass(model, "ExtractFS.tla invariant Contained (extractor with the final-component guard)")
+    noguard = run_tlc("MCExtractFS", "ExtractFS_guardFALSE.cfg", timeout=1800)   # design-level counterexample without the guard (documented)
+    emitcfg = "ExtractFS_emit.cfg" if tier() == "quick" else "ExtractFS_emit3.cfg"
+    em = run_tlc("MCExtractFS", emitcfg, timeout=2400)
+    tlc_must_pass(em, "ExtractFS.tla emitter")
+    rc, rep = harness_run(vh, ["extract-replay", em["out"], "@REPORT", car], timeout=3400)
+    cov = merge_cov(model, em, rep, {
+        "rule": "every archive of <= %d top-level entries over {file, symlink, directory (with <= 1 child)} x names {a, b, ../a, a/b, ..} x 6 symlink targets (relative and absolute, to the sentinel file, the sentinel "
+                "directory, inside, dangling outside) x output directory {empty, holding a symlink to the sentinel file, a symlink to the sentinel directory, a directory}, each as one root with (possibly repeated) "
+                "names and as two roots; the built car binary extracts it inside a sandbox and a recursive snapshot (names, types, contents, link targets, mtimes) of everything outside the output directory "
+                "is compared before/after; the model's predicted tree inside the output directory is compared as an I-layer check" % (2 if tier() == "quick" else 3),
+        "exhaustive": True, "explanation": "TLC checks Contained on the complete bounded state graph of ExtractFS.tla; without the guard it yields the counterexample: %s" % noguard.get("violated")})
+    finish("C17", "model_checking", cov, rep["violations"] or [], inconclusive=rep.get("inconclusive") or None, drift=rep.get("model_drift") or None,
+           assumptions=["kernel path resolution is what the model says (the verdict itself is the real snapshot comparison)", "plain (unsharded) directories; HAMT-sharded directories are not generated"])
